@@ -2,16 +2,18 @@
 # usage: seeded_verify.sh <worktree> <id>  -- confirms a seeded change: builds, suite passes with it, demo fails with it and passes without.
 export GOFLAGS=-mod=mod GOPROXY=off GOSUMDB=off GOTOOLCHAIN=local
 W=$1; ID=$2; cd $W || exit 2
+rm -rf /tmp/_so_$ID; mv seeded_out /tmp/_so_$ID     # the deliverables are not part of the module
 DEMO=$(git status --porcelain | grep 'zz_seeded_demo' | awk '{print $2}' | head -1)
 PKG=./$(dirname "$DEMO")
 echo "demo=$DEMO pkg=$PKG"
 git diff --stat | tail -3
-go build ./... || { echo BUILD-FAIL; exit 1; }
+go build ./... || { echo BUILD-FAIL; mv /tmp/_so_$ID seeded_out; exit 1; }
 mv $DEMO /tmp/_demo_$ID.go
-go test -vet=off -count=1 ./... > /tmp/_suite_$ID.log 2>&1; S=$?; echo "suite_with_change rc=$S"; grep -c "^ok" /tmp/_suite_$ID.log; grep "FAIL" /tmp/_suite_$ID.log | head -3
+go test -vet=off -count=1 ./... > /tmp/_suite_$ID.log 2>&1; S=$?; echo "suite_with_change rc=$S ($(grep -c '^ok' /tmp/_suite_$ID.log) packages ok)"; grep "FAIL" /tmp/_suite_$ID.log | head -3
 mv /tmp/_demo_$ID.go $DEMO
 go test -vet=off -count=1 -run 'Seeded' $PKG > /tmp/_demo1_$ID.log 2>&1; echo "demo_with_change rc=$? (want !=0)"
 git diff > /tmp/_patch_$ID.diff
-git checkout -- . 
+git checkout -- .
 go test -vet=off -count=1 -run 'Seeded' $PKG > /tmp/_demo2_$ID.log 2>&1; echo "demo_without_change rc=$? (want 0)"
 git apply /tmp/_patch_$ID.diff
+mv /tmp/_so_$ID seeded_out
